@@ -3,7 +3,9 @@
    the geometric clauses are exactly their statements; (more: per-primitive preservation theorems over the GENERATED
    primitives, Dcel/Proofs*.v, are added to this file as they are completed). *)
 From Coq Require Import ZArith List Bool Arith.
-From SpadeV Require Import Geom.Pred Obs.State Obs.Spec Obs.SpecProp Obs.SpecProofs.
+Import ListNotations.
+From SpadeV Require Import Geom.Pred Obs.State Obs.Spec Obs.SpecProp Obs.SpecProofs Vmap.Model Dcel.Raw Dcel.WfCore Gen.DcelOps.
+From SpadeV Require Dcel.ProofsInsertTriangle Dcel.ProofsSplit Dcel.ProofsFlip.
 
 Theorem C02_wf_checker_is_spec : forall s, wf_b s = true <-> Wf s.
 Proof. exact wf_b_spec. Qed.
@@ -14,5 +16,57 @@ Proof. exact positions_distinct_spec. Qed.
 Theorem C02_hull_contains_all_checker_is_spec : forall s pts, hull_contains_all s pts = true <-> HullContainsAll s pts.
 Proof. exact hull_contains_all_spec. Qed.
 
+(* ---- the DCEL primitives, GENERATED from dcel_operations.rs (Gen/DcelOps.v), preserve link-level well-formedness ---- *)
+Theorem C02_insert_into_triangle : forall d v f0, DWf d -> 1 <= f0 -> f0 < Raw.num_faces d ->
+   let r := DcelOps.insert_into_triangle d v f0 in let d' := fst r in
+      DWf d'
+   /\ snd r = Raw.num_vertices d
+   /\ Raw.num_vertices d' = S (Raw.num_vertices d) /\ Raw.num_undirected_edges d' = Raw.num_undirected_edges d + 3
+   /\ Raw.num_faces d' = Raw.num_faces d + 2 /\ length (d_hedges d') = length (d_hedges d) + 6
+   /\ d_flags d' = d_flags d ++ [false; false; false]
+   /\ (forall u, u < Raw.num_vertices d -> let a := nth u (d_verts d') dflt_v in let b := nth u (d_verts d) dflt_v in
+                 v_x a = v_x b /\ v_y a = v_y b /\ v_data a = v_data b)
+   /\ (let a := nth (Raw.num_vertices d) (d_verts d') dflt_v in v_x a = vd_x v /\ v_y a = vd_y v /\ v_data a = vd_d v)
+   /\ (forall x, x < length (d_hedges d) -> (e_face d' x = 0 <-> e_face d x = 0))
+   /\ (forall x, length (d_hedges d) <= x -> x < length (d_hedges d') -> e_face d' x <> 0).
+Proof. exact ProofsInsertTriangle.insert_into_triangle_wf. Qed.
+
+Theorem C02_split_edge : forall d e v, DWf d -> e < length (d_hedges d) -> inner d e -> inner d (rev e) ->
+   let r := DcelOps.split_edge d e v in let d' := fst r in
+      DWf d' /\ fst (snd r) = Raw.num_vertices d
+   /\ Raw.num_vertices d' = S (Raw.num_vertices d) /\ Raw.num_undirected_edges d' = Raw.num_undirected_edges d + 3
+   /\ Raw.num_faces d' = Raw.num_faces d + 2 /\ d_flags d' = d_flags d ++ [false; false; false]
+   /\ (forall u, u < Raw.num_vertices d -> let a := nth u (d_verts d') dflt_v in let b := nth u (d_verts d) dflt_v in
+                 v_x a = v_x b /\ v_y a = v_y b /\ v_data a = v_data b)
+   /\ (forall x, x < length (d_hedges d) -> (e_face d' x = 0 <-> e_face d x = 0))
+   /\ (let '(h0, h1) := snd (snd r) in
+         (e_origin d' h0 = e_origin d e /\ e_to d' h0 = Raw.num_vertices d /\ e_origin d' h1 = Raw.num_vertices d /\ e_to d' h1 = e_to d e)).
+Proof. exact ProofsSplit.split_edge_wf. Qed.
+
+(* flip_cw: needs the two apexes to be different vertices (true for any two faces of a triangulation with distinct
+   positions; without it the statement is FALSE -- C02_flip_cw_needs_distinct_apexes exhibits a well-formed DCEL on which
+   the flipped edge becomes a loop). *)
+Theorem C02_flip_cw : forall d e, DWf d -> e < Raw.num_undirected_edges d ->
+  inner d (2 * e) -> inner d (2 * e + 1) ->
+  e_origin d (e_prev d (2 * e)) <> e_origin d (e_prev d (2 * e + 1)) ->
+  let d' := fst (DcelOps.flip_cw d e) in
+     DWf d'
+  /\ Raw.num_vertices d' = Raw.num_vertices d /\ Raw.num_undirected_edges d' = Raw.num_undirected_edges d
+  /\ Raw.num_faces d' = Raw.num_faces d /\ length (d_hedges d') = length (d_hedges d)
+  /\ d_flags d' = d_flags d
+  /\ (forall v, v < Raw.num_vertices d -> let a := nth v (d_verts d') dflt_v in let b := nth v (d_verts d) dflt_v in
+                v_x a = v_x b /\ v_y a = v_y b /\ v_data a = v_data b)
+  /\ (forall x, x < length (d_hedges d) -> (e_face d' x = 0 <-> e_face d x = 0))
+  /\ e_origin d' (2 * e) = e_origin d (e_prev d (2 * e)) /\ e_origin d' (2 * e + 1) = e_origin d (e_prev d (2 * e + 1)).
+Proof. exact ProofsFlip.flip_cw_wf_partial. Qed.
+
+Theorem C02_flip_cw_needs_distinct_apexes :
+  exists d e, DWf d /\ e < Raw.num_undirected_edges d /\ inner d (2 * e) /\ inner d (2 * e + 1) /\
+              ~ DWf (fst (DcelOps.flip_cw d e)).
+Proof. exact ProofsFlip.flip_cw_wf_counterexample. Qed.
+
+Print Assumptions C02_flip_cw.
+Print Assumptions C02_insert_into_triangle.
+Print Assumptions C02_split_edge.
 Print Assumptions C02_wf_checker_is_spec.
 Print Assumptions C02_faces_ccw_checker_is_spec.
